@@ -233,6 +233,90 @@ theorem selLoop_spec (rest : List Rec) : ∀ (i : Nat) (ri : Rec) (j : Nat),
             exact rle_trans r ri rk this h3
           · exact h4 r hr
 
+theorem kcmp_lt_of_lt_of_le (a b c : Rec) (h1 : kcmp a b < 0) (h2 : rle b c) : kcmp a c < 0 := by
+  have hneg := kcmp_antisymm a c
+  have hneg2 := kcmp_antisymm a b
+  by_cases h : kcmp a c < 0
+  · exact h
+  · have hca : rle c a := by unfold rle; omega
+    have hba := rle_trans b c a h2 hca
+    unfold rle at hba; omega
+
+theorem kcmp_lt_of_le_of_lt (a b c : Rec) (h1 : rle a b) (h2 : kcmp b c < 0) : kcmp a c < 0 := by
+  have hneg := kcmp_antisymm a c
+  have hneg2 := kcmp_antisymm b c
+  by_cases h : kcmp a c < 0
+  · exact h
+  · have hca : rle c a := by unfold rle; omega
+    have hcb := rle_trans c a b hca h1
+    unfold rle at hcb; omega
+
+/-- the index returned is the FIRST maximal one: the record that was the running best is strictly
+worse than the result unless it is the result, and so is every element before the result -/
+theorem selLoop_first (rest : List Rec) : ∀ (i : Nat) (ri : Rec) (j : Nat), i < j →
+    Readable ri → (∀ r ∈ rest, Readable r) → ∀ k, selLoop i ri j rest = some k →
+    ∃ rk, ((k = i ∧ rk = ri) ∨ ∃ m, rest[m]? = some rk ∧ k = j + m) ∧
+      (k ≠ i → kcmp ri rk < 0) ∧ (∀ m r, rest[m]? = some r → j + m < k → kcmp r rk < 0) := by
+  induction rest with
+  | nil =>
+    intro i ri j _ _ _ k hk
+    simp only [selLoop, Option.some.injEq] at hk
+    exact ⟨ri, .inl ⟨hk.symm, rfl⟩, fun h => absurd hk.symm h, by simp⟩
+  | cons rj rest ih =>
+    intro i ri j hij hri hrest k hk
+    have hrj : Readable rj := hrest rj (by simp)
+    have hrest' : ∀ r ∈ rest, Readable r := fun r hr => hrest r (by simp [hr])
+    have he := eff_readable ri rj hri hrj
+    unfold eff at he
+    cases hc : compare ri rj with
+    | none => simp [hc] at he
+    | some c =>
+      simp only [hc, Option.map_some, Option.some.injEq] at he
+      simp only [selLoop, hc] at hk
+      rw [he] at hk
+      by_cases hlt : kcmp ri rj < 0
+      · simp only [hlt, if_true] at hk
+        obtain ⟨rk, h1, h2, h3⟩ := ih j rj (j + 1) (by omega) hrj hrest' k hk
+        obtain ⟨k', rk', hs, hw, hle, _⟩ := selLoop_spec rest j rj (j + 1) hrj hrest'
+        have hkj : j ≤ k := by
+          rcases h1 with ⟨h, _⟩ | ⟨m, _, h⟩ <;> omega
+        have hrle : rle rj rk := by
+          by_cases hkk : k = j
+          · rcases h1 with ⟨_, hr⟩ | ⟨m, _, hm⟩
+            · rw [hr]; exact rle_refl _
+            · omega
+          · have := h2 hkk; unfold rle; omega
+        refine ⟨rk, ?_, ?_, ?_⟩
+        · right
+          rcases h1 with ⟨hkj', hr⟩ | ⟨m, hm, hkm⟩
+          · exact ⟨0, by simp [hr], by omega⟩
+          · exact ⟨m + 1, by simpa using hm, by omega⟩
+        · intro _; exact kcmp_lt_of_lt_of_le ri rj rk hlt hrle
+        · intro m r hm hlt'
+          cases m with
+          | zero =>
+            simp only [List.getElem?_cons_zero, Option.some.injEq] at hm
+            subst hm
+            exact h2 (by omega)
+          | succ m => exact h3 m r (by simpa using hm) (by omega)
+      · simp only [hlt, if_false] at hk
+        obtain ⟨rk, h1, h2, h3⟩ := ih i ri (j + 1) (by omega) hri hrest' k hk
+        refine ⟨rk, ?_, h2, ?_⟩
+        · rcases h1 with h1 | ⟨m, hm, hkm⟩
+          · exact .inl h1
+          · exact .inr ⟨m + 1, by simpa using hm, by omega⟩
+        · intro m r hm hlt'
+          cases m with
+          | zero =>
+            simp only [List.getElem?_cons_zero, Option.some.injEq] at hm
+            have hki : k ≠ i := by omega
+            have hle : rle rj ri := by
+              have := kcmp_antisymm ri rj
+              unfold rle; omega
+            rw [← hm]
+            exact kcmp_lt_of_le_of_lt rj ri rk hle (h2 hki)
+          | succ m => exact h3 m r (by simpa using hm) (by omega)
+
 /-- on lists whose records all have the same signature version and a readable EOL, the loop fails
 exactly when some sequence number is unreadable -/
 theorem selLoop_fail_iff (v : Bool) (rest : List Rec) : ∀ (i : Nat) (ri : Rec) (j : Nat),
